@@ -10,6 +10,7 @@ create task and all part tasks) are re-read from the source on every run (`plans
 import S3V.Lemmas.Xfer3
 import S3V.Model.Wiring
 import S3V.Props.Serial
+import S3V.Model.Coord
 
 namespace S3V.C05
 open S3V.Xfer
@@ -120,5 +121,30 @@ theorem serial_nothing_after_failure (plan : List S3V.Serial.Task) (hwf : S3V.Se
     (S3V.Serial.manager S3V.Serial.Tables.current plan).1.ran = S3V.Serial.ranOf (S3V.Serial.mainsOf plan) ∧
     (S3V.Serial.manager S3V.Serial.Tables.current plan).1.cleaned = !(S3V.Serial.manager S3V.Serial.Tables.current plan).1.success :=
   ⟨S3V.Serial.serial_ran plan hwf, (S3V.Serial.serial_outcome plan hwf).2.2.2.2.2⟩
+
+/-- **The failure cleanups (the abort of a multipart upload among them) run inside `announce_done` only**, and
+there only when the transfer did not succeed: no other operation of the coordinator — `set_exception` with or
+without override, `TransferFuture.set_exception` on a finished transfer, `set_result`, a cancel of a started
+transfer — runs a cleanup.  (A completed upload is therefore never aborted because the caller flags its future as
+failed afterwards.) -/
+theorem cleanups_only_by_announce (c : S3V.Coord.Coord) (o : S3V.Coord.Op)
+    (h1 : o ≠ .announceDone) (h2 : ∀ e, o = .cancel e → c.status ≠ .notStarted) :
+    (S3V.Coord.step c o).1.ranCleanups = c.ranCleanups := by
+  cases o with
+  | announceDone => exact absurd rfl h1
+  | cancel e =>
+    have hs := h2 e rfl
+    simp only [S3V.Coord.step]
+    split
+    · rfl
+    · simp [hs]
+  | setException e ov => simp only [S3V.Coord.step]; split <;> rfl
+  | futureSetException e => simp only [S3V.Coord.step]; split <;> rfl
+  | _ => simp [S3V.Coord.step] <;> (try split) <;> rfl
+
+/-- a successful transfer's announcement runs no failure cleanup -/
+theorem announce_success_keeps_cleanups (c : S3V.Coord.Coord) (h : c.status = .success) :
+    (S3V.Coord.announce c).ranCleanups = c.ranCleanups := by
+  simp [S3V.Coord.announce, h]
 
 end S3V.C05
